@@ -49,6 +49,8 @@ pub struct TestDesc {
     /// None: no Label entry
     pub label: Option<String>,
     pub source: String,
+    /// further attribute entries of the Testcase element: (key, value as XML), written before the others
+    pub extra: Vec<(&'static str, &'static str)>,
 }
 
 pub fn escape(s: &str) -> String {
@@ -113,6 +115,9 @@ pub fn render(pins: &[Pin], tests: &[TestDesc]) -> String {
     }
     for (i, t) in tests.iter().enumerate() {
         let mut es = String::new();
+        for (k, v) in &t.extra {
+            es.push_str(&entry(k, v));
+        }
         if let Some(l) = &t.label {
             es.push_str(&entry("Label", &format!("<string>{}</string>", escape(l))));
         }
